@@ -1068,6 +1068,7 @@ class Interp:
                 self.stats["calls_modelled"] += 1
         modelled = not (name in self.prog.funcs and name not in self.overrides and name not in self.no_inline)
         res = []
+        seen_out = set()
         for (s, v) in outcomes:
             if modelled and v != "NORETURN":
                 # any library call may clobber errno unless the model says what it left there
@@ -1082,7 +1083,9 @@ class Interp:
             if v == "NORETURN":
                 self.result.aborts.append((s, n, fn))
                 continue
-            s = s if s is not st else s.copy()
+            # a model may hand the same state object out with two different results: each outcome needs its own copy
+            s = s.copy() if (s is st or id(s) in seen_out) else s
+            seen_out.add(id(s))
             if isinstance(v, tuple) and len(v) == 2 and v[0] == "aggret":
                 # aggregate already stored at v[1]; copy into this call's ret cell
                 s = self.copy_agg(s, ("ret", fn.name, n["id"]), [v[1]], fn, n)
@@ -1109,6 +1112,10 @@ class Interp:
                     s.mem.pop(x[1], None)
                     self.kill_prefix(s, x[1])
         self.events.append(("unknown-call", fn, n, name, None, tuple(f.name for f in self.stack), tuple(self.callsites)))
+        # nothing is known about errno after a call without a model: functions that report through their return value (pthread_*,
+        # posix_spawn*, ...) leave it alone, so it may still be 0 - "-errno" is then not a negative code
+        s.mem[("g", "errno")] = frozenset({0}) | self.pos()
+        s.tmp[("errno_set",)] = True
         return [(s, self.top_for_type(n.get("ct") or n.get("t")))]
 
     def locals_of(self, F):
